@@ -302,6 +302,90 @@ fn check_doc(rep: &mut Report, drv: &mut Driver, corr: &mut Stream, orc: &mut St
     Ok(())
 }
 
+/// `<defaults>`: scoped like variables (they live in the same scope stack), applied to empty-element tags
+/// only. Not part of the property's statement (which speaks of variables), so correspondence only: the model of
+/// context.rs `set_element_default` / `apply_defaults` vs the implementation, event for event.
+fn gen_defaults_doc(rng: &mut Rng) -> Vec<X> {
+    fn attrs_default(rng: &mut Rng) -> Vec<(String, String)> {
+        let mut a: Vec<(String, String)> = vec![];
+        if rng.chance(1, 2) {
+            let toks: Vec<&str> = (0..rng.below(4)).map(|_| *rng.pick(&["init", "final", "rect", "circle", ".a", ".big", "rect.a", "circle.b", ".", "rect.", "_", "g", ".x-y"])).collect();
+            a.push(("match".into(), toks.join(*rng.pick(&[" ", ",", ", ", "  "]))));
+        }
+        let pool: [(&str, &[&str]); 12] = [("fill", &["red", "blue"]), ("stroke", &["s1"]), ("rx", &["1", "2"]), ("id", &["zz"]), ("style", &["s:1", "q:2"]), ("text-style", &["t:1"]),
+            ("transform", &["translate(1)", "scale(2)"]), ("class", &["a", "b a", "big", "a  b"]), ("x", &["5"]), ("width", &["7"]), ("opacity", &["0.5"]), ("r", &["3"])];
+        for (k, vs) in pool.iter() { if rng.chance(3, 10) { a.push((k.to_string(), rng.pick(vs).to_string())); } }
+        for i in (1..a.len()).rev() { let j = rng.below(i + 1); a.swap(i, j); }
+        a
+    }
+    fn defaults_el(rng: &mut Rng) -> X {
+        if rng.chance(1, 10) { return X::El { name: "defaults".into(), attrs: vec![], kids: None }; }
+        let mut kids = vec![];
+        for _ in 0..rng.below(4) {
+            let n = *rng.pick(&["rect", "circle", "_", "text", "g"]);
+            let a = attrs_default(rng);
+            if rng.chance(3, 20) {
+                let inner = X::El { name: rng.pick(&["rect", "_"]).to_string(), attrs: attrs_default(rng), kids: None };
+                kids.push(X::El { name: n.into(), attrs: a, kids: Some(vec![inner]) });
+            } else {
+                kids.push(X::El { name: n.into(), attrs: a, kids: None });
+            }
+        }
+        X::El { name: "defaults".into(), attrs: vec![], kids: Some(kids) }
+    }
+    fn shape(rng: &mut Rng) -> X {
+        let n = *rng.pick(&["rect", "circle", "rect", "rect"]);
+        let mut a: Vec<(String, String)> = vec![];
+        if n == "rect" { a.push(("wh".into(), rng.pick(&["2", "3 4"]).to_string())); } else { a.push(("r".into(), "2".into())); }
+        let pool: [(&str, &[&str]); 8] = [("fill", &["own"]), ("class", &["a", "big", "b x-y", "a big"]), ("style", &["o:1"]), ("transform", &["rotate(3)"]), ("text-style", &["ot:2"]), ("rx", &["9"]), ("text", &["hi"]), ("xy", &["1 2"])];
+        for (k, vs) in pool.iter() { if rng.chance(1, 4) { a.push((k.to_string(), rng.pick(vs).to_string())); } }
+        X::El { name: n.into(), attrs: a, kids: None }
+    }
+    fn seq(rng: &mut Rng, depth: usize) -> Vec<X> {
+        let mut out = vec![];
+        for _ in 0..1 + rng.below(5) {
+            let r = rng.below(100);
+            if r < 30 { out.push(defaults_el(rng)); }
+            else if r < 45 && depth < 2 { let a = if rng.chance(3, 10) { vec![("class".to_string(), "big".to_string())] } else { vec![] }; out.push(X::El { name: "g".into(), attrs: a, kids: Some(seq(rng, depth + 1)) }); }
+            else if r < 50 { out.push(X::El { name: "g".into(), attrs: vec![], kids: None }); }
+            else if r < 55 { out.push(X::leaf("var", &[("v", "1")])); }
+            else if r < 60 && depth < 2 { out.push(X::El { name: "if".into(), attrs: vec![("test".into(), rng.pick(&["1", "0"]).to_string())], kids: Some(seq(rng, depth + 1)) }); }
+            else if r < 65 && depth < 2 { out.push(X::El { name: "loop".into(), attrs: vec![("count".into(), "2".into())], kids: Some(seq(rng, depth + 1)) }); }
+            else if r < 70 { out.push(X::leaf("rect", &[("xy", "#late|h 1"), ("wh", "2")])); }
+            else { out.push(shape(rng)); }
+        }
+        out
+    }
+    let mut doc = seq(rng, 0);
+    doc.push(X::leaf("rect", &[("id", "late"), ("xy", "0 40"), ("wh", "2")]));
+    doc
+}
+
+fn stream_defaults(rep: &mut Report, drv: &mut Driver, rng: &mut Rng, n: usize) -> Result<(), String> {
+    let mut corr = Stream::new(
+        "doc/defaults",
+        "correspondence",
+        "documents with <defaults> blocks (element / _ / .class / name.class patterns, init and final flags, style / text-style / transform augmentation, nested blocks) among shapes, groups, loops, conditionals, variables and elements that wait for a forward reference: transform_str (events + end-of-run probe) vs the Lean model of set_element_default / apply_defaults; non-trivial = every case",
+    );
+    let lim = Limits::default();
+    for _ in 0..n {
+        let doc = gen_defaults_doc(rng);
+        let xml = doc_xml(&doc);
+        let imp = run_impl(&xml, lim);
+        let mdl = run_model(drv, &doc, lim)?;
+        corr.case(&xml, true, || json!({"document": xml, "impl": imp.status, "model": mdl.status}));
+        corr.tally(&format!("impl={}", imp.status));
+        if mdl.outside { corr.skipped += 1; corr.tally("outside-model"); } else {
+            match agree(&imp, &mdl) {
+                Ok(()) => corr.exact += 1,
+                Err(what) => rep.violation(Violation { kind: "correspondence", stream: corr.name.clone(), signature: "defaults".into(), what, replay: json!({"input": xml}), confirmed_on_impl: false }),
+            }
+        }
+    }
+    rep.streams.push(corr);
+    Ok(())
+}
+
 /// known-finding inputs and minimised past failures; each file: {input, lexical_probe_values, signature}
 fn corpus(rep: &mut Report) {
     let mut st = Stream::new("corpus", "oracle", "files of /verif/corpus/C15 (past failures and known findings): probe values must equal the recorded lexical bindings");
@@ -349,7 +433,7 @@ pub fn run(rep: &mut Report, tier: &str, seed: u64) -> Result<(), String> {
     let mut corr = Stream::new(
         "doc/scoping",
         "correspondence",
-        "fragments (half of them with no variable defined before the first group, so that the scope stack starts empty) of nested g (with attribute locals) / loop (with loop-var) / if scopes, <var> assignments (plain, in terms of current values, two-attribute swaps, a literal next to a read of the same name in either order), probes <rect data-p=\"$a|${b}\"> and, in half of the documents, forward references #z that make the enclosing top-level unit fail and be re-evaluated; implementation (output elements + end-of-run stack heights) vs the Lean control-skeleton model; non-trivial = every case",
+        "fragments (with <reuse> of two group templates, one of which holds a forward reference; half of them with no variable defined before the first group, so that the scope stack starts empty) of nested g (with attribute locals) / loop (with loop-var) / if scopes, <var> assignments (plain, in terms of current values, two-attribute swaps, a literal next to a read of the same name in either order), probes <rect data-p=\"$a|${b}\"> and, in half of the documents, forward references #z that make the enclosing top-level unit fail and be re-evaluated; implementation (output elements + end-of-run stack heights) vs the Lean control-skeleton model; non-trivial = every case",
     );
     let mut orc = Stream::new(
         "oracle/lexical-binding",
@@ -365,5 +449,6 @@ pub fn run(rep: &mut Report, tier: &str, seed: u64) -> Result<(), String> {
     }
     rep.streams.push(corr);
     rep.streams.push(orc);
+    stream_defaults(rep, &mut drv, &mut rng.fork(), n / 2)?;
     Ok(())
 }
